@@ -147,6 +147,38 @@ fn feed<R: Send + 'static>(
 
 // ---- receivers ---------------------------------------------------------------------------------
 
+/// Backend request server receiving `a` immediately followed by `b` (no descriptors on `b`): the
+/// stream is cut inside `a`, and the rest of `a` arrives in one write together with all of `b`.
+fn recv_srv_pair(a: &Sym, b: &Sym, plan: &Plan) -> RecvObs {
+    let (peer, mut srv, be) = util::raw_server(Script { protocol_features: ops::ALL_PF, features: spec::VIRTIO_F_PROTOCOL_FEATURES | 3, ..Script::default() });
+    util::raw_negotiate(&peer, &mut srv, spec::VIRTIO_F_PROTOCOL_FEATURES | 1, ops::ALL_PF);
+    be.lock().unwrap().log.clear();
+    let (body_a, nfds) = a.op.wire();
+    let (files, socks) = a.op.files(nfds);
+    let mut fds: Vec<RawFd> = files.iter().map(|f| f.as_raw_fd()).collect();
+    fds.extend(socks.iter().step_by(2).map(|s| s.as_raw_fd()));
+    let mut bytes = spec::msg(a.op.code(), F_VERSION1 | if a.nr { F_NEED_REPLY } else { 0 }, &body_a);
+    bytes.extend_from_slice(&spec::msg(b.op.code(), F_VERSION1 | if b.nr { F_NEED_REPLY } else { 0 }, &b.op.wire().0));
+    let srv_fd = srv.as_raw_fd();
+    let (res, blocked) = feed(srv_fd, peer.as_raw_fd(), &bytes, &fds, plan, false, move || {
+        let r1 = srv.handle_request();
+        let r2 = if r1.is_ok() { format!("{:?}", srv.handle_request()) } else { "-".to_string() };
+        (format!("{r1:?};{r2}"), srv)
+    });
+    let log = be.lock().unwrap().log.clone();
+    let (mut msgs, rest) = spec::read_all_msgs(peer.as_raw_fd(), 1 << 20);
+    let replies: Vec<String> = msgs.iter().map(|m| format!("{:?}+{}B+{}fd", m.hdr(), m.body.len(), m.fds_first.len())).collect();
+    for m in msgs.iter_mut() {
+        m.close_fds();
+    }
+    let (r, returned) = match res {
+        Some((r, _srv)) => (r, true),
+        None => ("<panic-or-blocked>".to_string(), false),
+    };
+    let logt: Vec<String> = log.iter().map(|c| format!("{}({:x?},{}B,{}fd)", c.method, c.args, c.bytes.len(), c.fds.len())).collect();
+    RecvObs { text: format!("{r}|{logt:?}|{replies:?}|{}", rest.len()), returned, blocked_after_close: blocked, handler_calls: log.len(), err_kind: r }
+}
+
 /// Backend request server receiving `sym`.
 fn recv_srv(sym: &Sym, plan: &Plan) -> RecvObs {
     let (peer, mut srv, be) = util::raw_server(Script { protocol_features: ops::ALL_PF, features: spec::VIRTIO_F_PROTOCOL_FEATURES | 3, ..Script::default() });
@@ -424,6 +456,43 @@ fn receive_side(cfg: &Cfg, rng: &mut Rng) {
             let len = 12 + sym.op.wire().0.len();
             let s2 = sym.clone();
             judge_recv(cfg, "backend-server", &sym.short(), len, &move |p| recv_srv(&s2, p), rng, &format!("recv:{idx}"));
+        }
+    }
+    // pipelined pairs: the tail of one request and the whole next request arrive in one segment
+    {
+        let all: Vec<ROp> = c04::full_ops(&mut vrng).into_iter().filter(|o| o.method().is_some()).collect();
+        let seconds: Vec<ROp> = all.iter().filter(|o| o.wire().1 == 0).cloned().collect();
+        for (ai, a) in all.iter().enumerate() {
+            idx += 1;
+            if !cfg.mine(idx) || seconds.is_empty() {
+                continue;
+            }
+            let b = seconds[(ai * 7 + 3) % seconds.len()].clone();
+            let (sa, sb) = (Sym { op: a.clone(), nr: ai % 2 == 0, fail: false, offer_pf: true }, Sym { op: b, nr: ai % 3 == 0, fail: false, offer_pf: true });
+            let len_a = 12 + sa.op.wire().0.len();
+            let reference = recv_srv_pair(&sa, &sb, &Plan { cuts: vec![len_a], truncate_at: None });
+            if !reference.returned {
+                report::inconclusive(&format!("pipelined {}: reference run did not return", sa.short()));
+                continue;
+            }
+            let step = if len_a > 200 && !cfg.thorough { 37 } else { 1 };
+            let mut cuts: Vec<usize> = (1..len_a).step_by(step).collect();
+            cuts.extend([11usize, 12, 13, len_a - 1].into_iter().filter(|c| *c > 0 && *c < len_a));
+            for c in cuts {
+                let o = recv_srv_pair(&sa, &sb, &Plan { cuts: vec![c], truncate_at: None });
+                report::eval(1);
+                report::count("backend-server.pipelined", 1);
+                report::distinct_str(&format!("pipe:{}:{}:{c}", sa.short(), sb.short()));
+                if o.text != reference.text || o.blocked_after_close {
+                    report::violation(
+                        &format!("C08:backend-server:{}:pipelined-tail-changes-result", sa.short()),
+                        jo! {"first" => sa.short(), "second" => sb.short(), "first_length" => len_a, "cut_offset" => c,
+                        "delivered_separately" => reference.text.as_str(), "tail_and_next_in_one_segment" => o.text.as_str(), "blocked" => o.blocked_after_close},
+                        cfg.replay(&format!("recv:{idx}")),
+                    );
+                    break;
+                }
+            }
         }
     }
     // frontend request server
@@ -753,7 +822,29 @@ fn send_side(cfg: &Cfg, rng: &mut Rng) {
             // let the sender run into the full buffer before we start reading
             std::thread::sleep(Duration::from_millis(3));
             let (got, fd_offs, certified) = slow_read(peer.as_raw_fd(), &expect, &done, rng);
+            // the whole stream was delivered: the sender must return. One that keeps burning CPU
+            // (re-sending, retrying for ever) never will; it cannot be joined.
+            if got.len() == expect.len() && !done.load(Ordering::SeqCst) {
+                let me = sys::gettid();
+                let others = || -> u64 { sys::threads().iter().filter(|t| t.0 != me).map(|t| sys::thread_cpu_ticks(t.0)).sum() };
+                let base = others();
+                sys::wait_until(20_000, || done.load(Ordering::SeqCst) || others().saturating_sub(base) >= sys::SPIN_TICKS);
+                if !done.load(Ordering::SeqCst) && others().saturating_sub(base) >= sys::SPIN_TICKS {
+                    report::eval(1);
+                    report::violation(
+                        &format!("C08:send:{who}:sender-never-returns"),
+                        jo! {"sender" => who, "stream_bytes" => expect.len(), "received" => got.len(), "bytes_queued_after_the_stream" => sys::inq(peer.as_raw_fd()),
+                        "certificate" => "every byte of the stream was received; the sending thread kept consuming CPU without returning"},
+                        cfg.replay(&format!("send:{round}")),
+                    );
+                    std::process::exit(report::finish());
+                }
+            }
             let res = handle.join().unwrap_or_else(|_| "<panic>".into());
+            let trailing = if got.len() == expect.len() { sys::inq(peer.as_raw_fd()) } else { 0 };
+            if trailing > 0 {
+                report::violation(&format!("C08:send:{who}:bytes-after-the-stream"), jo! {"sender" => who, "stream_bytes" => expect.len(), "extra_bytes_queued" => trailing, "sender_results" => res.chars().take(200).collect::<String>()}, cfg.replay(&format!("send:{round}")));
+            }
             certified_total += certified;
             report::eval(1);
             report::count(&format!("send.{who}"), 1);
